@@ -6,6 +6,9 @@
 #[macro_use]
 mod fw;
 mod child;
+mod gen;
+mod pmh;
+mod sk;
 mod oracle;
 mod props;
 mod stat;
